@@ -116,7 +116,10 @@ class G:
         # (a known finding of C23); other properties keep one style per function
         tuple_style = r.random() < self.focus.get("tuple_addr", 0.15)
         for _ in range(nb):
-            addr = self.fresh_addr(used, tuple_style)
+            if used and r.random() < self.focus.get("dup_addr", 0.0):
+                addr = list(r.choice(used))        # traced twice: must raise AddressReuse
+            else:
+                addr = self.fresh_addr(used, tuple_style)
             sub, satys, srty = self.any_prog(depth - 1) if depth > 0 and r.random() < 0.75 else self.leaf_prog()
             try:
                 aes = [self.expr_of(env, t) for t in satys]
@@ -162,7 +165,13 @@ class G:
         if depth <= 0:
             return self.leaf_prog()
         kind = self.pick(["int", "vmap", "scan", "switch", "mask", "repeat", "orelse", "accumulate", "reduce",
-                          "iterate", "iterate_final", "masked_iterate", "masked_iterate_final"])
+                          "iterate", "iterate_final", "masked_iterate", "masked_iterate_final"]
+                         + (["closure"] if self.focus.get("closure") else []))
+        if kind == "closure":
+            ns, na = r.randint(1, 2), r.randint(0, 2)
+            inner = self.int_prog(depth - 1, ns + na)
+            stored = [r.randint(-2, 3) for _ in range(ns)]
+            return ["closure", inner, stored, na], [INT] * na, INT
         L = self.max_len
         if kind == "int":
             n = r.choice([0, 1, 1, 2, 3])
